@@ -15,6 +15,7 @@
    times non-negative and non-decreasing (wf_times). *)
 From Verif Require Import Base.Util Model.Coordinator Proofs.CoordinatorProofs.
 From Verif Require Import Base.GenIR Gen.GeneratedTr Proofs.GenTrCoordinator.
+From Verif Require Import Base.GenIR Gen.GeneratedTr Proofs.GenTrObs.
 Open Scope Z_scope.
 
 (* Every answer the model gives to Accept / ShouldTransmit / the report-level calls, in every
@@ -173,6 +174,37 @@ Theorem C06_gen_checkEvents_decisions : forall c t s e,
   = Some (step_event c t s e).
 Proof. exact gen_coord_checkEvents. Qed.
 Print Assumptions C06_gen_checkEvents_decisions.
+
+Section GenTie.
+Local Open Scope Z_scope.
+(* ---- Tie to the source by translation (Gen/GeneratedTr.v, regenerated from /repo on every run by gen/translate.go) ----
+   g_* are the decision terms translated from the CURRENT Go code: every condition, the branch structure and which
+   white-listed effect statement runs on which path.  The theorems below state that the model's functions - about
+   which every theorem above speaks - are the interpretation of these terms. *)
+(* ShouldAcceptAttestedReport / ShouldTransmitAcceptedReport, loop bodies: every upkeep is handed to the coordinator, the verdict is true when one answers true *)
+Theorem C06_gen_report_anyof_loops :
+  forall v : bool,
+  g_accept_report_body v = (if v then ([1; 2], Fall) else ([1], Fall)) /\
+  g_transmit_report_body v = (if v then ([1; 2], Fall) else ([1], Fall)).
+Proof. exact gen_report_anyof. Qed.
+Print Assumptions C06_gen_report_anyof_loops.
+
+(* util.Cache.Get: absent when missing or expired (expiry set and strictly before now): the model's live *)
+Theorem C06_gen_cache_Get_decisions :
+  forall (found : bool) exp now,
+  g_cache_get found exp now = if found && live now exp then ([], RetO 1) else ([], RetO 0).
+Proof. exact gen_cache_get. Qed.
+Print Assumptions C06_gen_cache_Get_decisions.
+
+(* util.Cache.ClearExpired: scan collects exactly the expired keys, the sweep re-checks under the write lock *)
+Theorem C06_gen_cache_ClearExpired_decisions :
+  forall (found : bool) exp now,
+  g_cache_gc_scan_body exp now = (if live now exp then ([], Fall) else ([1], Fall)) /\
+  g_cache_gc_sweep_body found exp now = (if found && negb (live now exp) then ([1], Fall) else ([], Fall)).
+Proof. exact gen_cache_gc. Qed.
+Print Assumptions C06_gen_cache_ClearExpired_decisions.
+
+End GenTie.
 
 (* Non-vacuity: a history with two work ids, an acceptance, a higher acceptance, a perform event,
    an expiry and a restart is well-formed; the model answers true to a transmit query, and the
